@@ -20,7 +20,7 @@ TIERS = {"C04": (1500, 160, 40000, 1200)}
 PROBES = {"C04": ["constructor_args_varied", "nested_param_set", "component_replaced",
                   "unknown_param_rejected", "clone_of_fitted", "not_fitted_calls_checked",
                   "fit_leaves_params_checked", "composite_depth2", "pickle_unfitted",
-                  "ordered_set_params"]}
+                  "ordered_set_params", "deep_names_checked", "params_after_update_checked"]}
 FAULT_KINDS = {"C04": ["clone_midway", "pickle_roundtrip", "set_params_midway"]}
 RULE = {"C04": (
     "for a seeded choice of estimator class (all 76 importable classes), constructor-argument "
@@ -77,7 +77,7 @@ def required_args(name, rng):
     if name == "MultiplexForecaster":
         return {"forecasters": [("a", _naive()), ("b", _trend())], "selected_forecaster": rng.choice(["a", "b"])}
     if name == "TransformedTargetForecaster":
-        steps = [("d", Detrender())]
+        steps = [("d", Detrender(forecaster=_trend(degree=1)) if r > 0.5 else Detrender())]
         if r < 0.5:
             steps.append(("s", Deseasonalizer(sp=rng.choice([1, 2]))))
         f = _naive(strategy=rng.choice(["last", "mean"]))
@@ -172,7 +172,7 @@ def generate(prop, rng, tier):
     n = rng.randint(3, 8)
     pool = ["get_params", "roundtrip_params", "set_flat", "set_unknown", "clone", "call_unfitted",
             "call_unfitted", "fit", "fit", "clone_fitted", "pickle", "set_nested", "replace_component",
-            "set_ordered"]
+            "set_ordered", "update_fitted"]
     for _ in range(n):
         ops.append(rng.choice(pool))
     return {"class": cls.__name__, "qual": q, "kind": kind, "ctor_seed": rng.randint(0, 10 ** 6),
@@ -365,6 +365,27 @@ def execute(prop, scen):
                     for k_ in expected:
                         if k_ not in deep:
                             v("param_names", "get_params(deep=True) lacks %r" % k_, where="deep")
+                    # every parameter of every named component, at any depth, is listed as
+                    # <component>__<param> and reads the component's own value
+                    if comp and not res.violations:
+                        for part in getattr(est, comp):
+                            pname, pobj = part[0], part[1]
+                            if not hasattr(pobj, "get_params"):
+                                continue
+                            for sub, val in pobj.get_params(deep=True).items():
+                                key = "%s__%s" % (pname, sub)
+                                if key not in deep:
+                                    v("nested_param_missing", "get_params(deep=True) lacks %r (a "
+                                      "parameter of component %r)" % (key, pname),
+                                      depth=key.count("__"))
+                                    break
+                                if deep[key] is not val and param_digest(deep[key]) != param_digest(val):
+                                    v("nested_param_wrong_value", "get_params()[%r] is not the "
+                                      "component's value" % key)
+                                    break
+                            if res.violations:
+                                break
+                        res.probe("deep_names_checked")
                 except Exception as e:  # noqa
                     v("get_params_raised", "get_params(deep=True) raised %s: %s" % (
                         type(e).__name__, str(e)[:120]))
@@ -447,6 +468,8 @@ def execute(prop, scen):
                     res.nontrivial = True
                 elif op == "replace_component":
                     new_obj = clone(pobj)
+                    callers_list = getattr(est, comp)          # the list object the user passed
+                    callers_items = list(callers_list)
                     try:
                         est.set_params(**{pname: new_obj})
                     except Exception as e:  # noqa
@@ -458,6 +481,11 @@ def execute(prop, scen):
                     if cur.get(pname) is not new_obj:
                         v("component_not_replaced", "set_params(%s=<estimator>) did not replace the "
                           "component" % pname)
+                    if len(callers_list) != len(callers_items) or any(
+                            a is not b for a, b in zip(callers_list, callers_items)):
+                        v("callers_list_mutated", "set_params(%s=<estimator>) edited the list object "
+                          "that was passed to the constructor in place (other estimators sharing it "
+                          "change with it)" % pname)
                     expected[comp] = getattr(est, comp)
                     res.nontrivial = True
                 else:
@@ -538,6 +566,23 @@ def execute(prop, scen):
                 if getattr(c2, "is_fitted", False):
                     v("clone_is_fitted", "a clone of a fitted estimator reports is_fitted True", fitted=True)
                 check_not_fitted(v, res, c2, kind, data, NotFittedError, cloned=True)
+            elif op == "update_fitted":
+                # apply-type / update calls on the fitted object never touch constructor parameters
+                if not fitted or not hasattr(est, "update") or kind not in ("forecaster", "series-transformer"):
+                    continue
+                before = {k_: param_digest(x) for k_, x in est.get_params(deep=False).items()}
+                try:
+                    call_method(est, kind, "update", data)
+                except Exception:
+                    continue
+                res.probe("params_after_update_checked")
+                after = est.get_params(deep=False)
+                for k_ in before:
+                    if k_ not in after or param_digest(after[k_]) != before[k_]:
+                        v("param_changed_by_update", "constructor parameter %r changed during update: "
+                          "%s -> %s" % (k_, _brief(before[k_]), _brief(param_digest(after.get(k_)))),
+                          param=k_)
+                        break
             elif op == "fit":
                 if name in NOT_FITTABLE:
                     continue
